@@ -495,4 +495,183 @@ example :
        | _ => (0, 0)) = (2, 2) := by
   decide
 
+/-! ### Optimisation without coalesce: the condition and every identifier body one by one -/
+
+theorem pshape_shakeOK (c : Expr) (h : PShape c) : shakeOK c = true := by
+  induction h with
+  | ident i => rfl
+  | matchIdent k i => rfl
+  | litFloat b => rfl
+  | litInt i => rfl
+  | litCast f m => rfl
+  | negate _ _ ih => simpa [shakeOK] using ih
+  | binBool op hop _ _ _ _ ihl ihr => rcases hop with rfl | rfl <;> simp [shakeOK, ihl, ihr]
+  | cmp l op r h1 h2 hl hr =>
+    have := isLeafE_of_not_solvable l hl
+    have := isLeafE_of_not_solvable r hr
+    cases op <;> simp_all [shakeOK]
+
+theorem pshape_xOK (c : Expr) (h : PShape c) : xOK c = true ∧ topN c = false := by
+  induction h with
+  | ident i => exact ⟨rfl, rfl⟩
+  | matchIdent k i => exact ⟨rfl, rfl⟩
+  | litFloat b => exact ⟨rfl, rfl⟩
+  | litInt i => exact ⟨rfl, rfl⟩
+  | litCast f m => exact ⟨rfl, rfl⟩
+  | negate _ _ ih => exact ⟨by simpa [xOK] using ih.1, rfl⟩
+  | binBool op hop _ _ _ _ ihl ihr =>
+    rcases hop with rfl | rfl <;> simp [xOK, topN, ihl.1, ihl.2, ihr.1, ihr.2]
+  | cmp l op r h1 h2 hl hr =>
+    have a := isLeafE_of_not_solvable l hl
+    have b := isLeafE_of_not_solvable r hr
+    have xl : xOK l = true := by cases l <;> simp [isLeafE] at a <;> rfl
+    have xr : xOK r = true := by cases r <;> simp [isLeafE] at b <;> rfl
+    cases op <;> simp_all [xOK, topN]
+
+/-- A parsed condition without all(X)/of(X) sees the identifiers only through their results. -/
+theorem pshape_congrK (E : RegexEngine) (K K' : IdentK) (d : Doc) (c : Expr) (h : PShape c)
+    (hm : matchIds c = []) (hi : ∀ i, K'.ident i d = K.ident i d) :
+    solveG E K' d c = solveG E K d c := by
+  induction h with
+  | ident i => simp only [solveG, hi]
+  | matchIdent k i => simp [matchIds] at hm
+  | litFloat b => simp only [solveG]
+  | litInt i => simp only [solveG]
+  | litCast f m => simp only [solveG]
+  | negate _ _ ih => simp only [solveG]; rw [ih (by simpa [matchIds] using hm)]
+  | @binBool l r op hop _ _ _ _ ihl ihr =>
+    have hm' : matchIds l = [] ∧ matchIds r = [] := by simpa [matchIds] using hm
+    rcases hop with rfl | rfl <;> simp only [solveG, ihl hm'.1, ihr hm'.2]
+  | cmp l op r h1 h2 hl hr =>
+    cases op <;> first | exact absurd rfl h1 | exact absurd rfl h2 | simp only [solveG]
+
+def noNeg : Expr → Bool
+  | .negate _ => false
+  | .bin l _ r => noNeg l && noNeg r
+  | _ => true
+
+theorem binAnd_t (x y : Tri) : binAnd x y = .t ↔ x = .t ∧ y = .t := by cases x <;> cases y <;> simp [binAnd]
+theorem binOr_t (x y : Tri) : binOr x y = .t ↔ x = .t ∨ y = .t := by cases x <;> cases y <;> simp [binOr]
+
+/-- … and, when it holds no negation, only through whether they are true. -/
+theorem pshape_congrK_truth (E : RegexEngine) (K K' : IdentK) (d : Doc) (c : Expr) (h : PShape c)
+    (hm : matchIds c = []) (hn : noNeg c = true) (hi : ∀ i, K'.ident i d = .t ↔ K.ident i d = .t) :
+    solveG E K' d c = .t ↔ solveG E K d c = .t := by
+  induction h with
+  | ident i => simp only [solveG, hi]
+  | matchIdent k i => simp [matchIds] at hm
+  | litFloat b => simp only [solveG]
+  | litInt i => simp only [solveG]
+  | litCast f m => simp only [solveG]
+  | negate _ _ ih => simp [noNeg] at hn
+  | @binBool l r op hop _ _ _ _ ihl ihr =>
+    have hm' : matchIds l = [] ∧ matchIds r = [] := by simpa [matchIds] using hm
+    have hn' : noNeg l = true ∧ noNeg r = true := by simpa [noNeg] using hn
+    rcases hop with rfl | rfl
+    · simp only [solveG, binAnd_t, ihl hm'.1 hn'.1, ihr hm'.2 hn'.2]
+    · simp only [solveG, binOr_t, ihl hm'.1 hn'.1, ihr hm'.2 hn'.2]
+  | cmp l op r h1 h2 hl hr =>
+    cases op <;> first | exact absurd rfl h1 | exact absurd rfl h2 | simp only [solveG]
+
+/-- What `optimise` without coalesce does to the condition and to every identifier body. -/
+def optBody (E : RegexEngine) (s rw m : Bool) (b : Expr) : Expr :=
+  (if m then matrixPass else id) ((if rw then rewrite E else id) ((if s then shake else id) b))
+
+theorem optimiseTree_uncoalesced (E : RegexEngine) (s rw m : Bool) (ids : Ids) (e : Expr) :
+    optimiseTree E ⟨false, s, rw, m⟩ ids e =
+      (optBody E s rw m e, ids.map (fun (p : Str × Expr) => (p.1, optBody E s rw m p.2))) := by
+  have pair : ∀ (g : Expr → Expr), (fun (x : Str × Expr) => match x with | (k, v) => (k, g v)) =
+      (fun (p : Str × Expr) => (p.1, g p.2)) := by
+    intro g; funext p; cases p; rfl
+  cases s <;> cases rw <;> cases m <;>
+    simp [optimiseTree, optBody, pair, List.map_map, Function.comp]
+
+theorem ids_uncoalesced (E : RegexEngine) (s rw m : Bool) (ids : Ids) (i : Str) :
+    lookupId (ids.map (fun (p : Str × Expr) => (p.1, optBody E s rw m p.2))) i =
+      (lookupId ids i).map (optBody E s rw m) :=
+  lookup_map ids (optBody E s rw m) i
+
+/-- **Rule level, the switch combinations WITHOUT coalesce** (the condition and every identifier
+    body are optimised one by one): the verdict is kept, for conditions that do not apply
+    all()/of() to an identifier (those count the members of a body, which shake reshapes: the
+    recorded match-reshape finding). -/
+theorem optimise_verdict_uncoalesced (E : RegexEngine) (hL : StripLaw E) (ic : Bool) (src : RuleSrc) (r : Rule)
+    (h : loadRule E ic src = .ok r) (hopt : r.optimised = false)
+    (s rw m : Bool)
+    (hm : matchIds r.det.expr = [])
+    (hs : s = true →
+      (shake0F (shakeFuel r.det.expr) r.det.expr).2 = false ∧
+      ∀ i b, lookupId r.det.ids i = some b → xOK b = true ∧ (shake0F (shakeFuel b) b).2 = false)
+    (hmx : m = true →
+      noNeg r.det.expr = true ∧
+      mOK ((if rw then rewrite E else id) ((if s then shake else id) r.det.expr)) = true ∧
+      ∀ i b, lookupId r.det.ids i = some b →
+        mOK ((if rw then rewrite E else id) ((if s then shake else id) b)) = true)
+    (d : Doc) :
+    (r.optimise E ⟨false, s, rw, m⟩).matches E d = r.matches E d := by
+  have hdet : loadDetection E ic src.det = .ok r.det := by
+    unfold loadRule at h
+    split at h
+    · cases h
+    · cases h; assumption
+  have hshape := (C03.loaded_condition_shape E ic src.det r.det hdet).1
+  have hb : ∀ i b, lookupId r.det.ids i = some b → shakeOK b = true :=
+    fun i b hl => loaded_bodies_shakeOK E ic src.det r.det hdet i b hl
+  -- the exact part (shake, rewrite) of the pipeline, on any tree, under any continuation
+  have exact : ∀ (K : IdentK) (x : Expr), shakeOK x = true →
+      (s = true → xOK x = true ∧ (shake0F (shakeFuel x) x).2 = false) → ∀ d,
+      solveG E K d ((if rw then rewrite E else id) ((if s then shake else id) x)) = solveG E K d x := by
+    intro K x hok hx d
+    have h1 : solveG E K d ((if s then shake else id) x) = solveG E K d x := by
+      cases s with
+      | false => rfl
+      | true => obtain ⟨a, b⟩ := hx rfl; exact shake_exact E K x hok a b d
+    cases rw with
+    | false => exact h1
+    | true => simp only [if_true]; rw [rewrite_sound E hL K d]; exact h1
+  -- verdict of one pipeline run
+  have verdict : ∀ (K : IdentK) (x : Expr), shakeOK x = true →
+      (s = true → xOK x = true ∧ (shake0F (shakeFuel x) x).2 = false) →
+      (m = true → mOK ((if rw then rewrite E else id) ((if s then shake else id) x)) = true) → ∀ d,
+      (solveG E K d (optBody E s rw m x) = .t ↔ solveG E K d x = .t) := by
+    intro K x hok hx hmo d
+    rw [← exact K x hok hx d]
+    unfold optBody
+    cases m with
+    | false => exact Iff.rfl
+    | true => exact (matrix_good E K _ _ (hmo rfl)).1 d
+  unfold Rule.matches Rule.optimise Rule.solve
+  simp only [hopt, Bool.false_eq_true, if_false, optimiseTree_uncoalesced]
+  apply isT_congr
+  simp only [solveTop]
+  -- identifier results: equal in truth
+  have hid : ∀ i, (topK E (r.det.ids.map (fun (p : Str × Expr) => (p.1, optBody E s rw m p.2)))).ident i d = .t ↔
+      (topK E r.det.ids).ident i d = .t := by
+    intro i
+    simp only [topK, ids_uncoalesced]
+    cases hl : lookupId r.det.ids i with
+    | none => simp
+    | some b =>
+      simp only [Option.map_some, solveClosed]
+      exact verdict closedK b (hb i b hl) (fun hs' => (hs hs').2 i b hl) (fun hm' => (hmx hm').2.2 i b hl) d
+  have hcond := verdict (topK E (r.det.ids.map (fun (p : Str × Expr) => (p.1, optBody E s rw m p.2))))
+    r.det.expr (pshape_shakeOK _ hshape)
+    (fun hs' => ⟨(pshape_xOK _ hshape).1, (hs hs').1⟩) (fun hm' => (hmx hm').2.1) d
+  rw [hcond]
+  cases m with
+  | true =>
+    exact pshape_congrK_truth E _ _ d _ hshape hm (hmx rfl).1 hid
+  | false =>
+    -- without matrix the identifier results are equal as three-valued results
+    have hid' : ∀ i, (topK E (r.det.ids.map (fun (p : Str × Expr) => (p.1, optBody E s rw false p.2)))).ident i d =
+        (topK E r.det.ids).ident i d := by
+      intro i
+      simp only [topK, ids_uncoalesced]
+      cases hl : lookupId r.det.ids i with
+      | none => simp
+      | some b =>
+        simp only [Option.map_some, solveClosed, optBody, Bool.false_eq_true, if_false, id]
+        exact exact closedK b (hb i b hl) (fun hs' => (hs hs').2 i b hl) d
+    rw [pshape_congrK E _ _ d _ hshape hm hid']
+
 end Tau.C01
